@@ -8,7 +8,7 @@ import json
 
 import numpy as np
 
-from . import common, gencalls, implrun
+from . import common, gencalls, implrun, irser
 from .common import sx
 
 
@@ -43,9 +43,86 @@ def gen_cases(rng, n):
     return [gencalls.gen_call(rng) for _ in range(n)]
 
 
+def gen_rearrange_core(rng, n):
+    """rearrangements of one tensor whose expressions only nest flattened axes: the sub-family for which Model/Lower.v
+    models the lowering and Proofs/LowerProofs.v proves it equal to the loop-notation meaning"""
+    out = []
+    g = gencalls.G(rng)
+    while len(out) < n:
+        axes = g.pick_axes(rng.randint(1, 5), sizes=[2, 3, 4, 5], maxprod=3000)
+        if any(a.size == 1 for a in axes):
+            continue
+        din = g.arrange(g.perm(axes), units=0.0, flat=0.45)
+        dout = g.arrange(g.perm(axes), units=0.0, flat=0.45)
+        if any(isinstance(d, gencalls.Fl) and not d.leaves() for d in din + dout):
+            continue
+        c = gencalls.Call("id", "id", [din], [dout], [gencalls.int_data(rng, gencalls.shape_of(din))])
+        c.describe(rng)
+        out.append(c)
+    return out
+
+
+def _capture_graph(c):
+    """the optimised graph einx builds for the call on the numpy backend, as a term of Model/Opt.v (wire form), and the call's result"""
+    import einx._src.tracer as tracer
+    graphs = []
+    orig = tracer.optimize
+
+    def optimize(x, optimizations):
+        after = orig(x, optimizations)
+        graphs.append(after)
+        return after
+    tracer.optimize = optimize
+    try:
+        r = implrun.run_call(c, "numpy")
+    finally:
+        tracer.optimize = orig
+    if len(graphs) != 1:
+        return ("nograph", len(graphs), r)
+    try:
+        ts = irser.ser_term(graphs[0])
+        return ("term", ts[0], r) if len(ts) == 1 else ("unsupported", "several outputs", r)
+    except irser.Unsupported as e:
+        return ("unsupported", str(e), r)
+
+
+def run_lowering(ctx):
+    """tie of Model/Lower.v to the code: the graph einx builds must be accepted as equivalent to the model's term by the
+    extracted, proved-sound checker of Model/Opt.v (normal forms coincide)"""
+    cases = gen_rearrange_core(ctx.rng, 150 if ctx.tier == "quick" else 5000)
+    caps = common.pmap(_capture_graph, cases)
+    lines, owners = [], []
+    stats = {"rearrangements": len(cases), "graph_equals_model": 0, "identity_graphs": 0}
+    for c, cap in zip(cases, caps):
+        if cap[0] == "term":
+            names = gencalls.Names()
+            lines.append(sx(["lower_rearrange", [gencalls.w_dims(c.ins[0], names), gencalls.w_dims(c.outs[0], names), cap[1]]]))
+            owners.append(c)
+        elif cap[0] == "nograph" and cap[1] == 0:
+            stats["served_from_cache_no_trace"] = stats.get("served_from_cache_no_trace", 0) + 1     # the same call was traced earlier in this worker
+        else:
+            ctx.tie_breaks.append({"correspondence": "lowering model vs traced graph: graph not captured as a term", "call": c.record(), "detail": str(cap[:2])})
+    for c, r in zip(owners, ctx.model.batch(lines)):
+        if isinstance(r, list) and r[0] == "lower" and r[1] == "T" and r[2] == "T" and r[3] == "T" and r[4] == "T":
+            stats["graph_equals_model"] += 1
+            if r[6] == "1":
+                stats["identity_graphs"] += 1
+        else:
+            ctx.tie_breaks.append({"correspondence": "Model/Lower.v: the graph einx built for this rearrangement is not equivalent to the model's "
+                                                     "reshape-transpose-reshape term (verdict: in_scope, equivalent, wf_model, wf_graph, sizes)",
+                                   "call": c.record(), "verdict": r})
+        ctx.distinct.add("lower|" + c.desc)
+    return stats
+
+
 def run(ctx):
     n = 600 if ctx.tier == "quick" else 20000
     run_cases(ctx, gen_cases(ctx.rng, n))
+    if ctx.prop == "C01":
+        stats = run_lowering(ctx)
+        ctx.coverage["input_distribution"]["lowering_model_correspondence"] = stats
+        ctx.coverage["rule"] += ("; plus rearrangements of one tensor with nested flattened axes: the optimised graph einx traces is compared "
+                                 "with the term of Model/Lower.v by the extracted equivalence checker")
 
 
 def run_cases(ctx, cases):
